@@ -509,15 +509,16 @@ def check_c26(tier, seed):
     # the statistics are computed inside the pipeline (restoration kernel) on the encoder's own reconstruction: whether that reconstruction is
     # complete depends on who else needs it (recon output on/off, reference / non-reference picture, restoration on/off, CDEF on/off, tiles)
     def vary(rng, cfgo):
-        cfgo['recon_enabled'] = rng.choice([0, 0, 1])
+        cfgo['recon_enabled'] = rng.choice([0, 0, 1]); cfgo['encoder_bit_depth'] = rng.choice([8, 8, 8, 10])
     return single_check('C26', tier, seed, {'decode': 1, 'parse': 0, 'recon_compare': 0, 'sse': 1, 'order': 0},
         [({'stat_report': 1}, {'kind': 'mix', 'seed': 3}, 10, (64, 64)), ({'stat_report': 1, 'tf_level': 0}, {'kind': 'moving', 'seed': 4}, 9, (72, 66)), ({'stat_report': 1, 'hierarchical_levels': 3, 'enable_overlays': 1, 'enc_mode': 6}, {'kind': 'moving', 'seed': 5}, 18, (64, 64)),
          ({'stat_report': 1, 'recon_enabled': 0}, {'kind': 'mix', 'seed': 6}, 10, (64, 64)), ({'stat_report': 1, 'recon_enabled': 0, 'enc_mode': 6, 'enable_restoration_filtering': 0}, {'kind': 'moving', 'seed': 7}, 9, (70, 66)),
          ({'stat_report': 1, 'recon_enabled': 0, 'cdef_level': 0, 'hierarchical_levels': 4}, {'kind': 'noise', 'seed': 8}, 17, (64, 64)), ({'stat_report': 1, 'recon_enabled': 0, 'enable_restoration_filtering': 1, 'enc_mode': 5}, {'kind': 'hgrad', 'seed': 9}, 6, (128, 128)),
          ({'stat_report': 1, 'recon_enabled': 0, 'tile_columns': 1, 'tile_rows': 1, 'logical_processors': 4}, {'kind': 'moving', 'seed': 10}, 6, (256, 128)), ({'stat_report': 1, 'recon_enabled': 0, 'pred_structure': 1}, {'kind': 'moving', 'seed': 11}, 8, (66, 70)),
-         ({'stat_report': 1, 'disable_dlf_flag': 1, 'recon_enabled': 0}, {'kind': 'mix', 'seed': 12}, 8, (64, 64))],
-        100, 200, 'stat_report=1, 8-bit, sizes incl. non-multiples of 8, temporal filtering on/off, all hierarchical levels, recon output on and off, in-loop filters on/off, tiles; film grain and superres off (the code measures before those stages); oracle: for every packet luma/cb/cr SSE == sum (submitted - dav1d-decoded)^2 over the visible area mod 2^32; distinct = distinct cases',
-        force={'stat_report': 1, 'film_grain_denoise_strength': 0, 'superres_mode': 0, 'encoder_bit_depth': 8}, fields_quick=['enc_mode', 'hierarchical_levels', 'tf_level', 'qp', 'logical_processors', 'enable_overlays', 'pred_structure', 'intra_period_length', 'cdef_level', 'enable_restoration_filtering', 'disable_dlf_flag', 'tile_columns', 'tile_rows'], kinds=['mix', 'moving', 'noise', 'hgrad'], vary=vary)
+         ({'stat_report': 1, 'disable_dlf_flag': 1, 'recon_enabled': 0}, {'kind': 'mix', 'seed': 12}, 8, (64, 64)),
+         ({'stat_report': 1, 'encoder_bit_depth': 10, 'recon_enabled': 0}, {'kind': 'moving', 'seed': 13}, 9, (72, 66)), ({'stat_report': 1, 'encoder_bit_depth': 10, 'hierarchical_levels': 3, 'enc_mode': 6}, {'kind': 'noise', 'seed': 14}, 9, (64, 64))],
+        100, 200, 'stat_report=1, 8-bit and 10-bit, sizes incl. non-multiples of 8, temporal filtering on/off, all hierarchical levels, recon output on and off, in-loop filters on/off, tiles; film grain and superres off (the code measures before those stages); oracle: for every packet luma/cb/cr SSE == sum (submitted - dav1d-decoded)^2 over the visible area mod 2^32; distinct = distinct cases',
+        force={'stat_report': 1, 'film_grain_denoise_strength': 0, 'superres_mode': 0}, fields_quick=['enc_mode', 'hierarchical_levels', 'tf_level', 'qp', 'logical_processors', 'enable_overlays', 'pred_structure', 'intra_period_length', 'cdef_level', 'enable_restoration_filtering', 'disable_dlf_flag', 'tile_columns', 'tile_rows'], kinds=['mix', 'moving', 'noise', 'hgrad'], vary=vary)
 
 TOOL_SWITCHES = [('disable_dlf_flag', 1, 0, 'noise'), ('cdef_level', 0, 1, 'noise'), ('enable_restoration_filtering', 0, 1, 'noise'), ('palette_level', 0, 6, 'text'), ('intrabc_mode', 0, 1, 'text'),
                  ('enable_global_motion', 0, 1, 'moving'), ('enable_warped_motion', 0, 1, 'moving'), ('obmc_level', 0, 1, 'moving'), ('filter_intra_level', 0, 1, 'hgrad'), ('disable_cfl_flag', 1, 0, 'hgrad'),
@@ -596,7 +597,7 @@ def check_c22(tier, seed):
         c = mk(ck, g, {'kind': 'mix', 'seed': rng.randint(1, 999)}, n, (64, 64), g={'pacing': 'each'}, sim=sim, oracles={'decode': 1, 'parse': 1, 'recon_compare': 1, 'order': 1, 'skip_priv': 1}); c['wall_timeout'] = 3000; c['sim']['step_limit'] = 400000000
         cases.append(c)
     # "exactly as well as short ones": defects that short streams show too (C02/C03 known findings) are not C22's
-    rs = run_batch(ck, cases, 'plain', 'C22', ('C01', 'C03', 'TERM'))
+    rs = run_batch(ck, cases, 'plain', 'C22', ('C01', 'C03', 'TERM', 'CRASH'))   # a long stream on which the encoder crashes or hangs is not encoded as well as a short one
     for c, r in zip(cases, rs):
         mo = max([f['oh'] for fl in (r.get('frames') or []) for f in fl] + [0])
         if r.get('npackets', 0) > 128: ck.ev.probe('order_hint_wrapped')
